@@ -301,6 +301,10 @@ class RemoteWorker(Worker, metaclass=RemoteWorkerMeta):
                 if force:
                     self._child.terminate()
                     self._child.join(timeout)
+                    if self._child.is_alive():
+                        # SIGTERM stays pending for a stopped child and gives no guarantees when timeout is 0, SIGKILL does
+                        self._child.kill()
+                        self._child.join(5)
                     try:
                         send_msg(self._socket, (False, None), comment='data: force terminate result')
                         self._socket.close()
